@@ -6,7 +6,7 @@ use std::result::Result;
 use std::hash::Hasher;
 
 #[derive(Clone, Debug, PartialEq, Eq, Hash)]
-pub enum Op { Src, Buffer, Size, Rope, Writer(usize), Stream(bool, bool), Map(bool), Hash }
+pub enum Op { Src, Buffer, Size, Rope, Writer(usize), Stream(bool, bool), Map(bool), Hash, Eq(usize), CloneCheck }
 
 #[derive(Clone, Debug, PartialEq, Eq, Hash)]
 pub enum Out {
@@ -16,6 +16,7 @@ pub enum Out {
   Writer(bool, Bytes),
   Stream(SRes),
   Map(Option<SMapT>),
+  Calls(Vec<String>),
   Panic(String),
   Bad(String),
 }
@@ -38,13 +39,21 @@ impl std::io::Write for FailWriter {
   fn flush(&mut self) -> std::io::Result<()> { Ok(()) }
 }
 
-pub struct RecHasher { pub log: Vec<u8> }
+/// records every `write*` call with its kind
+pub struct RecHasher { pub calls: Vec<String> }
 impl Hasher for RecHasher {
   fn finish(&self) -> u64 { 0 }
-  fn write(&mut self, bytes: &[u8]) { self.log.extend_from_slice(bytes); }
+  fn write(&mut self, bytes: &[u8]) { self.calls.push(format!("b{}", hx(bytes))); }
+  fn write_u8(&mut self, i: u8) { self.calls.push(format!("u8:{i}")); }
+  fn write_u32(&mut self, i: u32) { self.calls.push(format!("u32:{i}")); }
+  fn write_u64(&mut self, i: u64) { self.calls.push(format!("u64:{i}")); }
+  fn write_usize(&mut self, i: usize) { self.calls.push(format!("us:{i}")); }
+  fn write_isize(&mut self, i: isize) { self.calls.push(format!("is:{i}")); }
 }
+pub fn rec_calls(s: &dyn Source) -> Vec<String> { let mut h = RecHasher { calls: vec![] }; s.dyn_hash(&mut h); h.calls }
+pub fn real_hash(s: &dyn Source) -> u64 { let mut h = std::collections::hash_map::DefaultHasher::new(); s.dyn_hash(&mut h); h.finish() }
 
-pub fn run_op_impl(s: &dyn Source, op: &Op) -> Out {
+pub fn run_op_impl(s: &(dyn Source + 'static), op: &Op) -> Out {
   let r = catch(|| match op {
     Op::Src => Out::Text(s.source().as_bytes().to_vec()),
     Op::Buffer => Out::Text(s.buffer().to_vec()),
@@ -53,7 +62,16 @@ pub fn run_op_impl(s: &dyn Source, op: &Op) -> Out {
     Op::Writer(k) => { let mut w = FailWriter { budget: *k, written: vec![] }; let ok = s.to_writer(&mut w).is_ok(); Out::Writer(ok, w.written) }
     Op::Stream(c, f) => Out::Stream(run_stream(s, *c, *f)),
     Op::Map(c) => Out::Map(s.map(&MapOptions::new(*c)).map(|m| SMapT::of(&m))),
-    Op::Hash => { let mut h = RecHasher { log: vec![] }; s.dyn_hash(&mut h); Out::Text(h.log) }
+    Op::Hash => Out::Calls(rec_calls(s)),
+    Op::Eq(_) => Out::Bad("Eq needs two trees".into()),
+    Op::CloneCheck => {
+      let c: Box<dyn Source> = dyn_clone::clone_box(s);
+      let eq = (c.as_ref() == s) as u64;
+      let hash = (rec_calls(c.as_ref()) == rec_calls(s)) as u64;
+      let src = (c.source() == s.source() && c.buffer() == s.buffer() && c.size() == s.size()) as u64;
+      let map = (c.map(&MapOptions::default()) == s.map(&MapOptions::default()) && c.map(&MapOptions::new(false)) == s.map(&MapOptions::new(false))) as u64;
+      Out::Num(eq | hash << 1 | src << 2 | map << 3)
+    }
   });
   match r { Ok(o) => o, Err(m) => Out::Panic(panic_kind(&m).to_string() + ": " + &m) }
 }
@@ -68,7 +86,9 @@ pub fn op_proto(name: &str, op: &Op) -> String {
     Op::Writer(k) => format!("writer {name} {k}"),
     Op::Stream(c, f) => format!("stream {name} {} {}", b(c), b(f)),
     Op::Map(c) => format!("map {name} {} 0", b(c)),
-    Op::Hash => format!("feed {name}"),
+    Op::Hash => format!("feed {name} 0"),
+    Op::Eq(j) => format!("eq {name} A{j}"),
+    Op::CloneCheck => format!("clonecheck {name}"),
   }
 }
 
@@ -76,8 +96,9 @@ pub fn parse_out(op: &Op, resp: &str) -> Out {
   if resp == "bad-op" { return Out::Bad("bad-op".into()) }
   let mut t = Toks::new(resp);
   let r: Result<Out, String> = (|| Ok(match op {
-    Op::Src | Op::Buffer | Op::Hash => Out::Text(t.bytes()?),
-    Op::Size => Out::Num(t.num()?),
+    Op::Src | Op::Buffer => Out::Text(t.bytes()?),
+    Op::Hash => Out::Calls(t.list(|t| Ok(t.tok()?.to_string()))?),
+    Op::Size | Op::Eq(_) | Op::CloneCheck => Out::Num(t.num()?),
     Op::Rope => match t.tok()? { "ok" => Out::Rope(Some(t.bytes()?)), _ => Out::Panic("charboundary: model".into()) },
     Op::Writer(_) => { let ok = t.num()? == 1; Out::Writer(ok, t.bytes()?) }
     Op::Stream(..) => Out::Stream(t.sres()?),
